@@ -20,7 +20,7 @@ TESTS = {
     "C08": [s1("TestC08_SingleFlight", 25000, 400000), s1("TestC08_S4Overlap", 300, 6000, timeout_t=2400)],
     "C09": [s1("TestC09_WritePlacement", 25000, 400000)],
     "C10": [s1("TestC10_S1Loads", 20000, 250000)],
-    "C11": [s1("TestC11_S1Refresh", 20000, 250000), s1("TestC11_S1NoRefresh", 3000, 30000, qshards=1, tshards=4)],
+    "C11": [s1("TestC11_S1Refresh", 20000, 250000), s1("TestC11_S1NoRefresh", 3000, 30000, qshards=1, tshards=4), s1("TestC11_S2InFlight", 15000, 250000)],
     "C12": [s1("TestC12_S1Deadlines", 20000, 250000)],
     "C13": [s1("TestC13_S1Sweep", 20000, 250000), s1("TestC13_ClockGate", 6000, 100000)],
     "C14": [s1("TestC14_DrainProtocol", 6000, 150000, timeout_t=2400)],
